@@ -1,6 +1,6 @@
 (* Auth/AuthProofs.v - proofs about the process model Auth/AuthModel.v *)
-From Coq Require Import NArith ZArith List Bool Lia.
-From LV Require Import Auth.Des Auth.DesProofs Auth.AuthModel Gen.Consts_C05.
+From Coq Require Import NArith ZArith List Bool Lia PeanoNat.
+From LV Require Import Auth.Des Auth.DesProofs Auth.AuthModel Auth.HandlerSweep Gen.Consts_C05.
 Import ListNotations.
 
 (* the version-line parser mirrors exactly this format string of rfbproto.h *)
@@ -43,6 +43,15 @@ Proof.
   rewrite Nat.eqb_refl in *. cbn in *. rewrite N.eqb_refl. cbn. exact IH.
 Qed.
 
+(* ---------------------------------------------------------------- the fixed code
+   Everything in this section is about cfgF single ext = the code with fixes 1 and 2, for either
+   variant of rfbUnregisterSecurityHandler ([single]) and arbitrary security types [ext] of the four
+   application handler objects. *)
+Section Fixed.
+Variable single : bool.
+Variable ext : list Z.
+Notation cfx := (cfgF single ext) (only parsing).
+
 (* ---------------------------------------------------------------- leaf facts *)
 Lemma take_rand_length : forall rand n, length (fst (take_rand rand n)) = n.
 Proof.
@@ -50,9 +59,9 @@ Proof.
 Qed.
 
 Lemma encrypt_bytes_fixed : forall pw chal, length chal = 16%nat ->
-  vnc_encrypt pw chal = Some (encrypt_bytes cfg_fixed pw chal).
+  vnc_encrypt pw chal = Some (encrypt_bytes cfx pw chal).
 Proof.
-  intros pw chal Hl. unfold encrypt_bytes. cbn [cfg_fixed cfg_weak_refused andb].
+  intros pw chal Hl. unfold encrypt_bytes. cbn [cfgF cfg_weak_refused andb].
   destruct (vnc_encrypt_some pw chal Hl) as [r [Hr _]]. rewrite Hr. reflexivity.
 Qed.
 
@@ -75,12 +84,12 @@ Qed.
 (* the selection made by the FIXED rfbProcessClientSecurityType never runs a built-in handler
    other than the one of the client's own primary type, whatever the global list contains *)
 Lemma hs_find_fixed_builtin : forall fuel st cur chosen (prot : bool) sel,
-  hs_find fuel false st cur chosen (if prot then c05_rfbSecTypeVncAuth else c05_rfbSecTypeNone) = Some sel ->
+  hs_find fuel (htypes ext) false st cur chosen (if prot then c05_rfbSecTypeVncAuth else c05_rfbSecTypeNone) = Some sel ->
   (sel = HNone -> prot = false) /\ (sel = HAuth -> prot = true).
 Proof.
   induction fuel as [|f IH]; intros st cur chosen prot sel H; cbn [hs_find] in H; [discriminate|].
   destruct cur as [c|].
-  - destruct (nth_error htypes c) as [t|] eqn:Et; [|discriminate].
+  - destruct (nth_error (htypes ext) c) as [t|] eqn:Et; [|discriminate].
     destruct (nth_error (h_next st) c) as [nx|] eqn:En; [|discriminate].
     match type of H with (if ?b then _ else _) = _ => destruct b eqn:Ec end.
     + injection H as <-.
@@ -97,7 +106,7 @@ Qed.
 
 (* ---------------------------------------------------------------- soundness invariant *)
 Definition ok (s : screen) (c : conn) : Prop :=
-  (protected s c = true -> granted c = true -> proved s c) /\
+  (protected s c = true -> granted c = true -> proved c) /\
   (c_st c = StAuth -> c_chal c = c_sent c /\ length (c_sent c) = 16%nat).
 
 Definition same (c c' : conn) : Prop := c_screen c' = c_screen c /\ c_rev c' = c_rev c.
@@ -189,11 +198,11 @@ Proof.
 Qed.
 
 Lemma on_sectype_ok : forall s e c chosen e' c' co,
-  on_sectype cfg_fixed s e c chosen = (e', c', co) -> same c c' /\ ok s c'.
+  on_sectype cfx s e c chosen = (e', c', co) -> same c c' /\ ok s c'.
 Proof.
-  intros s e c chosen e' c' co H. unfold on_sectype in H. cbn [cfg_fixed cfg_global_check] in H.
+  intros s e c chosen e' c' co H. unfold on_sectype in H. cbn [cfgF cfg_global_check cfg_ext] in H.
   rewrite primary_of_protected in H.
-  destruct (hs_find LIST_FUEL false (e_hs e) (h_head (e_hs e)) (Z.of_N chosen)
+  destruct (hs_find LIST_FUEL (htypes ext) false (e_hs e) (h_head (e_hs e)) (Z.of_N chosen)
               (if protected s c then c05_rfbSecTypeVncAuth else c05_rfbSecTypeNone)) as [sel|] eqn:Ef.
   - destruct (hs_find_fixed_builtin _ _ _ _ _ _ Ef) as [HN HA].
     destruct sel as [| |k|].
@@ -207,20 +216,20 @@ Proof.
 Qed.
 
 Lemma password_check_fixed : forall s c resp b c1,
-  password_check cfg_fixed s c resp = (b, c1) ->
-  same c c1 /\ c_resp c1 = c_resp c /\ c_sent c1 = c_sent c /\ c_st c1 = c_st c /\
+  password_check cfx s c resp = (b, c1) ->
+  same c c1 /\ c_resp c1 = c_resp c /\ c_sent c1 = c_sent c /\ c_st c1 = c_st c /\ c_pws c1 = c_pws c /\
   (b = true -> length (c_chal c) = 16%nat ->
    exists pw, In pw (screen_passwords s) /\ vnc_encrypt pw (c_chal c) = Some resp).
 Proof.
   intros s c resp b c1 H. unfold password_check, screen_passwords in *.
   destruct (s_pw s) as [|pws fvo|content].
   - injection H as <- <-. repeat split; intros; discriminate.
-  - destruct (check_list cfg_fixed pws (c_chal c) resp 0) as [i|] eqn:Ec.
+  - destruct (check_list cfx pws (c_chal c) resp 0) as [i|] eqn:Ec.
     + injection H as <- <-.
       assert (Hsame : forall c2, c2 = (if (fvo <=? i)%Z then set_vo c true else c) ->
-                same c c2 /\ c_resp c2 = c_resp c /\ c_sent c2 = c_sent c /\ c_st c2 = c_st c).
+                same c c2 /\ c_resp c2 = c_resp c /\ c_sent c2 = c_sent c /\ c_st c2 = c_st c /\ c_pws c2 = c_pws c).
       { intros c2 ->. destruct (fvo <=? i)%Z; repeat split. }
-      destruct (Hsame _ eq_refl) as [A [B [C D]]]. repeat split; try assumption; try apply A.
+      destruct (Hsame _ eq_refl) as [A [B [C [D E]]]]. repeat split; try assumption; try apply A.
       intros _ Hl. destruct (check_list_in _ _ _ _ _ _ Ec) as [pw [Hin Hb]].
       exists pw. split; [exact Hin|]. apply bytes_eqb_eq in Hb. rewrite <- Hb. apply encrypt_bytes_fixed. exact Hl.
     + injection H as <- <-. repeat split; intros; discriminate.
@@ -232,32 +241,32 @@ Proof.
 Qed.
 
 Lemma on_response_ok : forall s e c resp e' c',
-  on_response cfg_fixed s e c resp = (e', c') -> ok s c -> c_st c = StAuth -> same c c' /\ ok s c'.
+  on_response cfx s e c resp = (e', c') -> ok s c -> c_st c = StAuth -> same c c' /\ ok s c'.
 Proof.
   intros s e c resp e' c' H [_ Hauth] Hst. destruct (Hauth Hst) as [Hch Hlen].
   unfold on_response in H.
-  destruct (password_check cfg_fixed s (set_resp c resp) resp) as [b c1] eqn:Ep.
-  destruct (password_check_fixed _ _ _ _ _ Ep) as [[S1 S2] [Hr [Hs [Hst1 Hpw]]]].
-  cbn in S1, S2, Hr, Hs, Hst1.
+  destruct (password_check cfx s (set_pws (set_resp c resp) (screen_passwords s)) resp) as [b c1] eqn:Ep.
+  destruct (password_check_fixed _ _ _ _ _ Ep) as [[S1 S2] [Hr [Hs [Hst1 [Hpws Hpw]]]]].
+  cbn in S1, S2, Hr, Hs, Hst1, Hpws.
   destruct b.
   - injection H as <- <-. split; [split; cbn; assumption|].
     split; [|cbn; discriminate]. intros _ _.
     destruct (Hpw eq_refl) as [pw [Hin Henc]]. { cbn. rewrite Hch. exact Hlen. }
-    exists resp, pw. cbn. rewrite Hr, Hs. cbn in Henc. rewrite Hch in Henc. auto.
+    exists resp, pw. cbn. rewrite Hr, Hs, Hpws. cbn in Henc. rewrite Hch in Henc. auto.
   - injection H as <- <-. split.
     + destruct (7 <? c_minor c)%Z; split; cbn; assumption.
     + apply ok_closed.
 Qed.
 
 Lemma on_message_ok : forall s e c msg e' c' co,
-  on_message cfg_fixed s e c msg = (e', c', co) -> ok s c -> same c c' /\ ok s c'.
+  on_message cfx s e c msg = (e', c', co) -> ok s c -> same c c' /\ ok s c'.
 Proof.
   intros s e c msg e' c' co H Hok. unfold on_message in H.
   destruct (c_st c) eqn:Hst.
-  - destruct (on_version cfg_fixed s e c msg) as [e1 c1] eqn:E. injection H as <- <- <-. eapply on_version_ok; eauto.
+  - destruct (on_version cfx s e c msg) as [e1 c1] eqn:E. injection H as <- <- <-. eapply on_version_ok; eauto.
   - destruct msg as [|b msg]; [injection H as <- <- <-; split; [split; reflexivity|exact Hok]|].
     eapply on_sectype_ok; eauto.
-  - destruct (on_response cfg_fixed s e c msg) as [e1 c1] eqn:E. injection H as <- <- <-.
+  - destruct (on_response cfx s e c msg) as [e1 c1] eqn:E. injection H as <- <- <-.
     eapply on_response_ok; eauto.
   - destruct msg as [|b msg]; [injection H as <- <- <-; split; [split; reflexivity|exact Hok]|].
     destruct (client_init s c b) as [c1 co1] eqn:E. injection H as <- <- <-.
@@ -302,7 +311,7 @@ Proof.
   eapply nth_error_In. exact Hn.
 Qed.
 
-Lemma deliver_inv : forall fuel p ci buf eof, inv p -> inv (deliver fuel cfg_fixed p ci buf eof).
+Lemma deliver_inv : forall fuel p ci buf eof, inv p -> inv (deliver fuel cfx p ci buf eof).
 Proof.
   induction fuel as [|f IH]; intros p ci buf eof Hinv; cbn [deliver]; [exact Hinv|].
   destruct (nth_error (p_conns p) ci) as [c|] eqn:Hn; [|exact Hinv].
@@ -318,11 +327,11 @@ Proof.
              match nth_error (p_screens p) (c_screen c) with
              | None => flag_err p
              | Some s =>
-                 let (y, co) := on_message cfg_fixed s (env_of p) c (firstn (msg_len st) buf) in
+                 let (y, co) := on_message cfx s (env_of p) c (firstn (msg_len st) buf) in
                  let (e', c') := y in
                  match msg_len st with
                  | O => flag_err p
-                 | S _ => deliver f cfg_fixed (put_conn p e' ci c' co) ci (skipn (msg_len st) buf) eof
+                 | S _ => deliver f cfx (put_conn p e' ci c' co) ci (skipn (msg_len st) buf) eof
                  end
              end
          end)).
@@ -330,7 +339,7 @@ Proof.
     destruct buf as [|b buf]; [destruct eof; [exact Hclose|exact Hinv]|].
     destruct (Nat.ltb (length (b :: buf)) (msg_len st)); [exact Hclose|].
     destruct Hc as [s [Hs Hok]]. rewrite Hs.
-    destruct (on_message cfg_fixed s (env_of p) c (firstn (msg_len st) (b :: buf))) as [[e' c'] co] eqn:Eo.
+    destruct (on_message cfx s (env_of p) c (firstn (msg_len st) (b :: buf))) as [[e' c'] co] eqn:Eo.
     destruct (on_message_ok _ _ _ _ _ _ _ Eo Hok) as [[Hs1 Hs2] Hok'].
     destruct (msg_len st); [exact Hinv|].
     apply IH. apply put_conn_inv; [exact Hinv|]. exists s. split; [rewrite Hs1; exact Hs|exact Hok']. }
@@ -352,9 +361,9 @@ Qed.
 Lemma with_hs_inv : forall p o, inv p -> inv (with_hs p o).
 Proof. intros p [st|] H; exact H. Qed.
 
-Lemma step_inv : forall p o, inv p -> inv (step cfg_fixed p o).
+Lemma step_inv : forall p o, inv p -> inv (step cfx p o).
 Proof.
-  intros p o Hinv. destruct o as [s|k|k|b|s rev bytes eof|c bytes eof]; cbn [step].
+  intros p o Hinv. destruct o as [s|k|k|b|s rev bytes eof|c bytes eof|s content]; cbn [step].
   - unfold inv in *. cbn [p_screens p_conns]. eapply Forall_impl; [|exact Hinv].
     intros c Hc. apply conn_ok_more_screens. exact Hc.
   - destruct (is_ext k); [apply with_hs_inv|]; exact Hinv.
@@ -364,9 +373,18 @@ Proof.
     apply deliver_inv. unfold inv in *. cbn [p_screens p_conns]. apply Forall_app. split; [exact Hinv|].
     constructor; [|constructor]. exists scr. split; [exact Hs|]. apply ok_idle; cbn; congruence.
   - apply deliver_inv. exact Hinv.
+  - destruct (nth_error (p_screens p) s) as [scr|] eqn:Hs; [|exact Hinv].
+    destruct (s_pw scr) as [| |old] eqn:Hpw; try exact Hinv.
+    unfold inv in *. cbn [p_screens p_conns]. eapply Forall_impl; [|exact Hinv].
+    intros c [s0 [Hs0 Hok]]. destruct (Nat.eq_dec (c_screen c) s) as [E|E].
+    + rewrite E in Hs0. rewrite Hs in Hs0. injection Hs0 as <-.
+      eexists. split; [rewrite E; apply nth_error_set_nth_eq; apply nth_error_Some; congruence|].
+      destruct Hok as [H1 H2]. split; [|exact H2]. intros Hp. apply H1.
+      unfold protected, has_password in *. cbn [s_pw] in Hp. rewrite Hpw. exact Hp.
+    + exists s0. split; [rewrite nth_error_set_nth_neq by congruence; exact Hs0|exact Hok].
 Qed.
 
-Lemma run_inv : forall ops p, inv p -> inv (run cfg_fixed p ops).
+Lemma run_inv : forall ops p, inv p -> inv (run cfx p ops).
 Proof.
   induction ops as [|o ops IH]; intros p H; cbn; [exact H|]. apply IH. apply step_inv. exact H.
 Qed.
@@ -380,9 +398,9 @@ Proof. constructor. Qed.
    RFB_INITIALISATION / RFB_NORMAL has answered the challenge sent to it with its DES encryption
    under one of the configured passwords. *)
 Lemma sound_fixed : forall ops c s,
-  let p := run cfg_fixed proc_init ops in
+  let p := run cfx proc_init ops in
   In c (p_conns p) -> nth_error (p_screens p) (c_screen c) = Some s ->
-  protected s c = true -> granted c = true -> proved s c.
+  protected s c = true -> granted c = true -> proved c.
 Proof.
   intros ops c s p Hin Hs Hp Ha.
   pose proof (run_inv ops proc_init inv_init) as Hinv. fold p in Hinv.
@@ -390,134 +408,113 @@ Proof.
   rewrite Hs in Hs'. injection Hs' as <-. apply Hok; assumption.
 Qed.
 
-(* the statement is not vacuous: a trace in which a protected client is granted *)
-Definition demo_pw : list N := [112;97;115;115;119;111;114;100]%N.
-Definition demo_chal : list N := map N.of_nat (seq 0 16).
-Definition demo_screen : screen := mkScreen (PwList [demo_pw] 1) 4 3 [112; 114]%N.
-Definition v38 : list N := [82;70;66;32;48;48;51;46;48;48;56;10]%N.
-Definition demo_resp : list N := match vnc_encrypt demo_pw demo_chal with Some r => r | None => [] end.
-Definition demo_trace : list op :=
-  [OScreen demo_screen; ORand demo_chal; OConn 0 false v38 false; OSend 0 [2%N] false;
-   OSend 0 demo_resp false; OSend 0 [1%N] false].
-
-Definition some_protected_granted (p : proc) : bool :=
-  existsb (fun c => match nth_error (p_screens p) (c_screen c) with
-                    | Some s => protected s c && granted c
-                    | None => false
-                    end) (p_conns p).
-
-Example sound_fixed_nonvacuous : some_protected_granted (run cfg_fixed proc_init demo_trace) = true.
-Proof. vm_compute. reflexivity. Qed.
-
-(* ---------------------------------------------------------------- the code before the fixes *)
-Definition open_screen : screen := mkScreen PwNone 5 6 [111; 112]%N.
-Definition v33 : list N := [82;70;66;32;48;48;51;46;48;48;51;10]%N.
-
-(* section 7 F1a: X (connection 0) of a protected screen is in RFB_SECURITY_TYPE, a connection to a
-   password-less screen rewrites the process-global list to {None}, X chooses type 1 *)
-Definition f1a_trace : list op :=
-  [OScreen demo_screen; OScreen open_screen; OConn 0 false v38 false; OConn 1 false v38 false;
-   OSend 0 [1%N] false; OSend 0 [1%N] false].
-
-Lemma sound_global_list_refuted :
-  exists ops c s, let p := run cfg_legacy proc_init ops in
-    In c (p_conns p) /\ nth_error (p_screens p) (c_screen c) = Some s /\
-    protected s c = true /\ c_st c = StNormal /\ ~ proved s c.
-Proof.
-  exists f1a_trace.
-  exists (nth 0 (p_conns (run cfg_legacy proc_init f1a_trace)) (new_conn 0 false)), demo_screen.
-  cbv zeta. split; [|split; [|split; [|split]]].
-  - vm_compute. left. reflexivity.
-  - vm_compute. reflexivity.
-  - vm_compute. reflexivity.
-  - vm_compute. reflexivity.
-  - intros [r [pw [H _]]]. vm_compute in H. discriminate.
-Qed.
-
-(* the same trace on the fixed code: X is dropped *)
-Example f1a_trace_fixed :
-  map c_st (p_conns (run cfg_fixed proc_init f1a_trace)) = [StClosed; StSec].
-Proof. vm_compute. reflexivity. Qed.
-
-(* the reverse-connection variant *)
-Definition f1a_rev_trace : list op :=
-  [OScreen demo_screen; OConn 0 false v38 false; OConn 0 true v38 false; OSend 0 [1%N] false].
-Example f1a_rev_legacy : map c_st (p_conns (run cfg_legacy proc_init f1a_rev_trace)) = [StInit; StSec].
-Proof. vm_compute. reflexivity. Qed.
-Example f1a_rev_fixed : map c_st (p_conns (run cfg_fixed proc_init f1a_rev_trace)) = [StClosed; StSec].
-Proof. vm_compute. reflexivity. Qed.
-
-(* section 7 F1b: empty password = all-zero DES key, refused by the backend; the failure is ignored, so
-   the "encrypted" challenge is the challenge itself *)
-Definition weak_screen : screen := mkScreen (PwList [[]] 1) 4 3 [119]%N.
-Definition f1b_trace : list op :=
-  [OScreen weak_screen; ORand demo_chal; OConn 0 false v33 false; OSend 0 demo_chal false].
-
-Lemma weakkey_refuted :
-  exists ops c s, let p := run cfg_legacy proc_init ops in
-    In c (p_conns p) /\ nth_error (p_screens p) (c_screen c) = Some s /\
-    protected s c = true /\ c_st c = StInit /\ ~ proved s c.
-Proof.
-  exists f1b_trace.
-  exists (nth 0 (p_conns (run cfg_legacy proc_init f1b_trace)) (new_conn 0 false)), weak_screen.
-  cbv zeta. split; [|split; [|split; [|split]]].
-  - vm_compute. left. reflexivity.
-  - vm_compute. reflexivity.
-  - vm_compute. reflexivity.
-  - vm_compute. reflexivity.
-  - intros [r [pw [H1 [H2 H3]]]]. vm_compute in H1. injection H1 as <-.
-    vm_compute in H2. destruct H2 as [<-|[]]. vm_compute in H3. discriminate.
-Qed.
-
-(* ... and the correct response is rejected; the fixed code does the opposite on both traces *)
-Definition weak_resp : list N := match vnc_encrypt [] demo_chal with Some r => r | None => [] end.
-Definition f1b_trace2 : list op :=
-  [OScreen weak_screen; ORand demo_chal; OConn 0 false v33 false; OSend 0 weak_resp false].
-Lemma weakkey_complete_refuted :
-  map c_st (p_conns (run cfg_legacy proc_init f1b_trace2)) = [StClosed] /\
-  map c_st (p_conns (run cfg_fixed proc_init f1b_trace2)) = [StInit] /\
-  map c_st (p_conns (run cfg_fixed proc_init f1b_trace)) = [StClosed].
-Proof. vm_compute. repeat split. Qed.
-
 (* ---------------------------------------------------------------- completeness *)
-(* the global list when the application registers no handler of its own: only the three states
-   reachable through rfbSendSecurityTypeList *)
-Definition bstore (st : hstore) : Prop :=
-  st = hstore_init \/ st = mkHs (Some H_VNCAUTH) (repeat None (length htypes)) \/
-  st = mkHs (Some H_NONE) (repeat None (length htypes)).
+(* what the theorems below require of the application handler types: four objects, none of them
+   of a built-in type (an application handler of type 2 ahead of the built-in one would
+   legitimately take the client) *)
+Definition ext_ok : Prop :=
+  length ext = 4%nat /\ Forall (fun t => t <> c05_rfbSecTypeNone /\ t <> c05_rfbSecTypeVncAuth) ext.
 
-Definition is_prim (z : Z) : Prop := z = c05_rfbSecTypeNone \/ z = c05_rfbSecTypeVncAuth.
-
-Lemma primary_is_prim : forall s c, is_prim (primary_type s c).
+Lemma is_prim_primary : forall s c, is_prim (primary_type s c).
 Proof. intros. rewrite primary_of_protected. destruct (protected s c); [right|left]; reflexivity. Qed.
 
-(* fuel suffices for the list operations on these stores, the result is again such a store and
-   the list sent is exactly the client's primary type *)
-Definition bstore_for (primary : Z) : hstore :=
-  mkHs (Some (if Z.eqb primary c05_rfbSecTypeNone then H_NONE else H_VNCAUTH)) (repeat None (length htypes)).
-
-Lemma bstore_offer : forall st primary, bstore st -> is_prim primary ->
-  exists st', offer_store st primary = Some st' /\ bstore st' /\
-              forall legacy, offer_types legacy primary st' = Some [primary].
+(* the list walk of hs_types / hs_find never runs out of fuel once hs_member does not *)
+Lemma hs_types_total : forall f tys legacy primary st cur,
+  hs_member f st cur 99 = Some false -> length tys = length (h_next st) ->
+  forall fuel room, (f <= fuel)%nat -> exists l, hs_types fuel tys legacy primary st cur room = Some l.
 Proof.
-  intros st primary Hb Hp. exists (bstore_for primary).
-  destruct Hb as [-> | [-> | ->]]; destruct Hp as [-> | ->];
-    (split; [vm_compute; reflexivity|]); (split; [unfold bstore; vm_compute; auto|]);
-    intros [|]; vm_compute; reflexivity.
+  induction f as [|f IH]; intros tys legacy primary st cur Hm Hlen fuel room Hf; cbn [hs_member] in Hm; [discriminate|].
+  destruct fuel as [|fuel]; [lia|]. cbn [hs_types].
+  destruct cur as [c|]; [|eauto].
+  destruct (Nat.eqb c 99); [discriminate|].
+  destruct (nth_error (h_next st) c) as [nx|] eqn:En; [|discriminate].
+  destruct room as [|r]; [eauto|].
+  assert (Hc : (c < length tys)%nat) by (rewrite Hlen; apply nth_error_Some; congruence).
+  destruct (nth_error tys c) as [t|] eqn:Et; [|apply nth_error_None in Et; lia].
+  destruct (negb legacy && is_builtin c && negb (Z.eqb t primary)).
+  - apply (IH tys legacy primary st nx Hm Hlen fuel (S r)). lia.
+  - destruct (IH tys legacy primary st nx Hm Hlen fuel r ltac:(lia)) as [l ->]. eauto.
 Qed.
 
-(* the fixed lookup honours the client's own primary type whatever the list says *)
-Lemma bstore_find : forall st primary, bstore st -> is_prim primary ->
-  hs_find LIST_FUEL false st (h_head st) primary primary = Some (builtin_sel primary).
-Proof. intros st primary [-> | [-> | ->]] [-> | ->]; vm_compute; reflexivity. Qed.
-
-Lemma send_type_list_bstore : forall cf e c primary, bstore (e_hs e) -> is_prim primary ->
-  exists st', bstore st' /\
-    send_type_list cf e c primary =
-      (mkEnv st' (e_rand e) (e_err e), set_st (add_out c [1%N; zbyte primary]) StSec).
+(* ... and the type of a list member that is the client's own built-in handler is advertised *)
+Lemma hs_types_member : forall f tys primary st cur pid,
+  hs_member f st cur pid = Some true -> nth_error tys pid = Some primary ->
+  forall fuel room l, (f <= room)%nat ->
+  hs_types fuel tys false primary st cur room = Some l -> In primary l.
 Proof.
-  intros cf e c primary Hb Hp. destruct (bstore_offer _ _ Hb Hp) as [st' [H1 [H2 H3]]].
-  exists st'. split; [exact H2|]. unfold send_type_list. rewrite H1, H3. reflexivity.
+  induction f as [|f IH]; intros tys primary st cur pid Hm Hp fuel room l Hr Ht; cbn [hs_member] in Hm; [discriminate|].
+  destruct cur as [c|]; [|discriminate].
+  destruct fuel as [|fuel]; [discriminate|]. cbn [hs_types] in Ht.
+  destruct room as [|r]; [lia|].
+  destruct (Nat.eqb c pid) eqn:Ec.
+  - apply Nat.eqb_eq in Ec. subst c. rewrite Hp in Ht.
+    destruct (nth_error (h_next st) pid) as [nx|]; [|discriminate].
+    rewrite Z.eqb_refl in Ht. cbn [negb andb] in Ht. rewrite andb_false_r in Ht.
+    destruct (hs_types fuel tys false primary st nx r); [|discriminate]. injection Ht as <-. left. reflexivity.
+  - destruct (nth_error (h_next st) c) as [nx|] eqn:En; [|discriminate].
+    destruct (nth_error tys c) as [t|]; [|discriminate].
+    destruct (negb false && is_builtin c && negb (Z.eqb t primary)).
+    + eapply (IH tys primary st nx pid Hm Hp fuel (S r)); [lia|exact Ht].
+    + destruct (hs_types fuel tys false primary st nx r) as [l'|] eqn:El; [|discriminate].
+      injection Ht as <-. right. eapply (IH tys primary st nx pid Hm Hp fuel r); [lia|exact El].
+Qed.
+
+Lemma htypes_builtin : forall primary, is_prim primary -> nth_error (htypes ext) (prim_id primary) = Some primary.
+Proof. intros primary [-> | ->]; reflexivity. Qed.
+
+Lemma htypes_ext : forall c t, ext_ok -> nth_error (htypes ext) c = Some t -> is_builtin c = false ->
+  t <> c05_rfbSecTypeNone /\ t <> c05_rfbSecTypeVncAuth.
+Proof.
+  intros c t [_ HF] Hn Hb. destruct c as [|[|c]]; try discriminate Hb.
+  cbn in Hn. rewrite Forall_forall in HF. apply HF. eapply nth_error_In. exact Hn.
+Qed.
+
+(* the fixed lookup honours the client's own type on every list whose walk terminates: no
+   application handler has a built-in type, a built-in handler of the other type is skipped *)
+Lemma hs_find_own : forall f st cur primary,
+  ext_ok -> is_prim primary -> hs_member f st cur 99 = Some false -> length (h_next st) = NHANDLERS ->
+  forall fuel, (f <= fuel)%nat ->
+  hs_find fuel (htypes ext) false st cur primary primary = Some (builtin_sel primary).
+Proof.
+  induction f as [|f IH]; intros st cur primary He Hp Hm Hlen fuel Hf; cbn [hs_member] in Hm; [discriminate|].
+  destruct fuel as [|fuel]; [lia|]. cbn [hs_find].
+  destruct cur as [c|].
+  - destruct (Nat.eqb c 99); [discriminate|].
+    destruct (nth_error (h_next st) c) as [nx|] eqn:En; [|discriminate].
+    assert (Hc : (c < NHANDLERS)%nat) by (rewrite <- Hlen; apply nth_error_Some; congruence).
+    destruct (nth_error (htypes ext) c) as [t|] eqn:Et.
+    2:{ apply nth_error_None in Et. destruct He as [He _]. cbn [htypes length] in Et. unfold NHANDLERS in Hc. lia. }
+    rewrite Z.eqb_refl. cbn [negb orb]. rewrite orb_true_r, andb_true_r.
+    destruct (Z.eqb t primary) eqn:Etp.
+    + apply Z.eqb_eq in Etp. subst t. f_equal.
+      destruct (is_builtin c) eqn:Eb.
+      * destruct c as [|[|c]]; try discriminate Eb; cbn in Et; injection Et as <-; reflexivity.
+      * destruct (htypes_ext c primary He Et Eb) as [A B]. destruct Hp; congruence.
+    + apply (IH st nx primary He Hp Hm Hlen fuel). lia.
+  - rewrite Z.eqb_refl. reflexivity.
+Qed.
+
+(* rfbSendSecurityTypeList on an acyclic store: succeeds, leaves an acyclic store and the list sent
+   contains the client's own type *)
+Lemma send_type_list_acyc : forall e c primary,
+  acyc (e_hs e) = true -> is_prim primary -> length ext = 4%nat ->
+  exists st' tl, acyc st' = true /\ In primary tl /\
+    send_type_list cfx e c primary =
+      (mkEnv st' (e_rand e) (e_err e), set_st (add_out c (N.of_nat (length tl) :: map zbyte tl)) StSec).
+Proof.
+  intros e c primary Ha Hp Hl.
+  destruct (acyc_offer single (e_hs e) primary Ha Hp) as [st' [Ho [Ha' Hm]]].
+  pose proof (acyc_list_ok st' Ha') as Hok.
+  assert (Hlen : length (htypes ext) = length (h_next st')).
+  { rewrite (acyc_length st' Ha'). cbn [htypes length]. rewrite Hl. reflexivity. }
+  destruct (hs_types_total LIST_FUEL (htypes ext) false primary st' (h_head st') Hok Hlen
+              (S (Z.to_nat c05_MAX_SECURITY_TYPES)) (Z.to_nat c05_MAX_SECURITY_TYPES - 1)
+              ltac:(vm_compute; lia)) as [tl Htl].
+  exists st', tl. split; [exact Ha'|]. split.
+  - eapply (hs_types_member LIST_FUEL (htypes ext) primary st' (h_head st') (prim_id primary) Hm
+              (htypes_builtin primary Hp)); [|exact Htl]. vm_compute. lia.
+  - unfold send_type_list. cbn [cfgF cfg_unreg_single cfg_global_check cfg_ext]. rewrite Ho.
+    unfold offer_types. rewrite Htl. reflexivity.
 Qed.
 
 Lemma close_others_from_nth : forall l i0 ci scr j,
@@ -588,15 +585,24 @@ Proof.
   destruct Hh as [H|[H|[H|H]]]; rewrite H in *; rewrite Hlt, Hs, Hfirst, Ho, Hk, <- Hk, Hskip; exact Hend.
 Qed.
 
-(* ---- the global list stays a [bstore] as long as the application registers nothing *)
+
+(* ---- the global list stays acyclic whatever happens (HandlerSweep) *)
 Lemma send_challenge_hs : forall e c e' c', send_challenge e c = (e', c') -> e_hs e' = e_hs e.
 Proof.
   intros e c e' c' H. unfold send_challenge in H.
   destruct (take_rand (e_rand e) (Z.to_nat c05_CHALLENGESIZE)). injection H as <- <-. reflexivity.
 Qed.
 
-Lemma on_message_bstore : forall cf s e c msg e' c' co,
-  on_message cf s e c msg = (e', c', co) -> bstore (e_hs e) -> bstore (e_hs e').
+Lemma send_type_list_hs_acyc : forall cf e c primary e' c',
+  send_type_list cf e c primary = (e', c') -> acyc (e_hs e) = true -> is_prim primary -> acyc (e_hs e') = true.
+Proof.
+  intros cf e c primary e' c' H Ha Hp. unfold send_type_list in H.
+  destruct (acyc_offer (cfg_unreg_single cf) (e_hs e) primary Ha Hp) as [st' [Ho [Ha' _]]]. rewrite Ho in H.
+  destruct (offer_types (htypes (cfg_ext cf)) (cfg_global_check cf) primary st'); injection H as <- <-; exact Ha'.
+Qed.
+
+Lemma on_message_acyc : forall cf s e c msg e' c' co,
+  on_message cf s e c msg = (e', c', co) -> acyc (e_hs e) = true -> acyc (e_hs e') = true.
 Proof.
   intros cf s e c msg e' c' co H Hb. unfold on_message in H.
   destruct (c_st c).
@@ -607,11 +613,10 @@ Proof.
     + unfold send_type_33 in E.
       destruct (primary_type s (set_minor c mi) =? c05_rfbSecTypeNone)%Z; [injection E as <- <-; exact Hb|].
       rewrite (send_challenge_hs _ _ _ _ E). exact Hb.
-    + destruct (send_type_list_bstore cf e (set_minor c mi) _ Hb (primary_is_prim s (set_minor c mi))) as [st' [Hb' Heq]].
-      rewrite Heq in E. injection E as <- <-. exact Hb'.
+    + eapply send_type_list_hs_acyc; [exact E|exact Hb|apply is_prim_primary].
   - destruct msg as [|b msg]; [injection H as <- <- <-; exact Hb|].
     unfold on_sectype in H.
-    destruct (hs_find LIST_FUEL (cfg_global_check cf) (e_hs e) (h_head (e_hs e)) (Z.of_N b) (primary_type s c)) as [[| |k|]|].
+    destruct (hs_find LIST_FUEL (htypes (cfg_ext cf)) (cfg_global_check cf) (e_hs e) (h_head (e_hs e)) (Z.of_N b) (primary_type s c)) as [[| |k|]|].
     + destruct (send_challenge e c) as [e1 c1] eqn:E. injection H as <- <- <-.
       rewrite (send_challenge_hs _ _ _ _ E). exact Hb.
     + destruct (auth_none s c). injection H as <- <- <-. exact Hb.
@@ -619,7 +624,8 @@ Proof.
     + injection H as <- <- <-. exact Hb.
     + injection H as <- <- <-. exact Hb.
   - destruct (on_response cf s e c msg) as [e1 c1] eqn:E. injection H as <- <- <-.
-    unfold on_response in E. destruct (password_check cf s (set_resp c msg) msg) as [[|] c2];
+    unfold on_response in E.
+    destruct (password_check cf s (set_pws (set_resp c msg) (screen_passwords s)) msg) as [[|] c2];
       injection E as <- <-; exact Hb.
   - destruct msg as [|b msg]; [injection H as <- <- <-; exact Hb|].
     destruct (client_init s c b). injection H as <- <- <-. exact Hb.
@@ -629,20 +635,20 @@ Qed.
 
 (* what a delivery to connection cj leaves untouched *)
 Lemma deliver_frame : forall fuel cf p cj buf eof,
-  bstore (p_hs p) ->
+  acyc (p_hs p) = true ->
   let p' := deliver fuel cf p cj buf eof in
-  bstore (p_hs p') /\ p_screens p' = p_screens p /\
+  acyc (p_hs p') = true /\ p_screens p' = p_screens p /\
   (forall ci c, ci <> cj -> nth_error (p_conns p) ci = Some c -> is_normal c = false ->
                 nth_error (p_conns p') ci = Some c).
 Proof.
   induction fuel as [|f IH]; intros cf p cj buf eof Hb; cbn [deliver].
   - repeat split; auto.
-  - assert (Hsame : bstore (p_hs p) /\ p_screens p = p_screens p /\
+  - assert (Hsame : acyc (p_hs p) = true /\ p_screens p = p_screens p /\
       (forall ci c, ci <> cj -> nth_error (p_conns p) ci = Some c -> is_normal c = false ->
                     nth_error (p_conns p) ci = Some c)) by (repeat split; auto).
     destruct (nth_error (p_conns p) cj) as [c|] eqn:Hn; [|exact Hsame].
     assert (Hclose : let p' := put_conn p (env_of p) cj (set_st c StClosed) false in
-      bstore (p_hs p') /\ p_screens p' = p_screens p /\
+      acyc (p_hs p') = true /\ p_screens p' = p_screens p /\
       (forall ci c0, ci <> cj -> nth_error (p_conns p) ci = Some c0 -> is_normal c0 = false ->
                      nth_error (p_conns p') ci = Some c0)).
     { cbv zeta. split; [exact Hb|]. split; [reflexivity|].
@@ -664,7 +670,7 @@ Proof.
                  end
              end
          end in
-      bstore (p_hs p') /\ p_screens p' = p_screens p /\
+      acyc (p_hs p') = true /\ p_screens p' = p_screens p /\
       (forall ci c0, ci <> cj -> nth_error (p_conns p) ci = Some c0 -> is_normal c0 = false ->
                      nth_error (p_conns p') ci = Some c0)).
     { intros st Hst. cbv zeta.
@@ -673,7 +679,7 @@ Proof.
       destruct (nth_error (p_screens p) (c_screen c)) as [s|]; [|exact Hsame].
       destruct (on_message cf s (env_of p) c (firstn (msg_len st) (b :: buf))) as [[e' c'] co] eqn:Eo.
       destruct (msg_len st); [exact Hsame|].
-      pose proof (on_message_bstore _ _ _ _ _ _ _ _ Eo Hb) as Hb'.
+      pose proof (on_message_acyc _ _ _ _ _ _ _ _ Eo Hb) as Hb'.
       destruct (IH cf (put_conn p e' cj c' co) cj (skipn (S n) (b :: buf)) eof Hb') as [I1 [I2 I3]].
       split; [exact I1|]. split; [rewrite I2; reflexivity|].
       intros ci c0 Hne H0 Hn0. apply I3; [exact Hne| |exact Hn0]. apply put_conn_nth_other; assumption. }
@@ -686,50 +692,85 @@ Proof.
     + exact Hsame.
 Qed.
 
-(* operations that are not addressed to connection ci and are not application (un)registrations *)
-Definition foreign (ci : nat) (o : op) : bool :=
+(* operations that are not addressed to connection ci and do not rewrite the password file of its
+   screen s: everything else is allowed, in particular application (un)registrations, other
+   connections to the same or other screens, reverse connections, new screens, other password files *)
+Definition foreign (ci s : nat) (o : op) : bool :=
   match o with
-  | OReg _ | OUnreg _ => false
   | OSend c _ _ => negb (Nat.eqb c ci)
+  | OSetFile s' _ => negb (Nat.eqb s' s)
   | _ => true
   end.
 
-Definition screens_kept (p p' : proc) : Prop :=
-  forall s scr, nth_error (p_screens p) s = Some scr -> nth_error (p_screens p') s = Some scr.
+Lemma with_hs_frame : forall p o, (forall st, o = Some st -> acyc st = true) -> acyc (p_hs p) = true ->
+  acyc (p_hs (with_hs p o)) = true /\ p_screens (with_hs p o) = p_screens p /\ p_conns (with_hs p o) = p_conns p.
+Proof. intros p [st|] H Ha; cbn; auto. Qed.
 
-Lemma step_frame : forall cf p o ci c,
-  foreign ci o = true -> bstore (p_hs p) -> nth_error (p_conns p) ci = Some c -> is_normal c = false ->
+Lemma step_frame : forall cf p o ci s scr c,
+  foreign ci s o = true -> acyc (p_hs p) = true -> nth_error (p_screens p) s = Some scr ->
+  nth_error (p_conns p) ci = Some c -> is_normal c = false ->
   let p' := step cf p o in
-  bstore (p_hs p') /\ screens_kept p p' /\ nth_error (p_conns p') ci = Some c.
+  acyc (p_hs p') = true /\ nth_error (p_screens p') s = Some scr /\ nth_error (p_conns p') ci = Some c.
 Proof.
-  intros cf p o ci c Hf Hb Hn Hnn. cbv zeta.
-  destruct o as [s|k|k|b|s rev bytes eof|cj bytes eof]; cbn [step foreign] in *; try discriminate.
-  - split; [exact Hb|]. split; [|exact Hn]. intros s0 scr H. cbn [p_screens].
-    rewrite nth_error_app1; [exact H|]. apply nth_error_Some. congruence.
-  - split; [exact Hb|]. split; [intros s0 scr H; exact H|exact Hn].
-  - destruct (nth_error (p_screens p) s) as [scr0|]; [|split; [exact Hb|split; [intros s0 scr H; exact H|exact Hn]]].
-    set (p1 := mkProc (p_hs p) (p_screens p) (p_conns p ++ [new_conn s rev]) (p_rand p) (p_err p) (p_unmod p)).
+  intros cf p o ci s scr c Hf Hb Hs Hn Hnn. cbv zeta.
+  destruct o as [s0|k|k|b|s0 rev bytes eof|cj bytes eof|s0 content]; cbn [step foreign] in *.
+  - split; [exact Hb|]. split; [|exact Hn]. cbn [p_screens].
+    rewrite nth_error_app1; [exact Hs|]. apply nth_error_Some. congruence.
+  - destruct (is_ext k) eqn:Ek; [|repeat split; assumption].
+    destruct (acyc_register (p_hs p) k Hb Ek) as [st' [-> Ha']]. cbn. repeat split; assumption.
+  - destruct (is_ext k) eqn:Ek; [|repeat split; assumption].
+    destruct (acyc_unregister (cfg_unreg_single cf) (p_hs p) k Hb Ek) as [st' [-> Ha']]. cbn. repeat split; assumption.
+  - repeat split; assumption.
+  - destruct (nth_error (p_screens p) s0) as [scr0|]; [|repeat split; assumption].
+    set (p1 := mkProc (p_hs p) (p_screens p) (p_conns p ++ [new_conn s0 rev]) (p_rand p) (p_err p) (p_unmod p)).
     assert (Hlt : (ci < length (p_conns p))%nat) by (apply nth_error_Some; congruence).
     destruct (deliver_frame (S (length bytes)) cf p1 (length (p_conns p)) bytes eof Hb) as [I1 [I2 I3]].
-    split; [exact I1|]. split; [intros s0 scr H; rewrite I2; exact H|].
+    split; [exact I1|]. split; [rewrite I2; exact Hs|].
     apply I3; [lia| |exact Hnn]. unfold p1. cbn [p_conns]. rewrite nth_error_app1 by exact Hlt. exact Hn.
   - apply negb_true_iff in Hf. apply Nat.eqb_neq in Hf.
     destruct (deliver_frame (S (length bytes)) cf p cj bytes eof Hb) as [I1 [I2 I3]].
-    split; [exact I1|]. split; [intros s0 scr H; rewrite I2; exact H|].
+    split; [exact I1|]. split; [rewrite I2; exact Hs|].
     apply I3; [congruence|exact Hn|exact Hnn].
+  - apply negb_true_iff in Hf. apply Nat.eqb_neq in Hf.
+    destruct (nth_error (p_screens p) s0) as [scr0|]; [|repeat split; assumption].
+    destruct (s_pw scr0); try (repeat split; assumption).
+    cbn [p_hs p_screens p_conns]. split; [exact Hb|]. split; [|exact Hn].
+    rewrite nth_error_set_nth_neq by congruence. exact Hs.
 Qed.
 
-Lemma run_frame : forall cf tr p ci c,
-  forallb (foreign ci) tr = true -> bstore (p_hs p) -> nth_error (p_conns p) ci = Some c -> is_normal c = false ->
+Lemma run_frame : forall cf tr p ci s scr c,
+  forallb (foreign ci s) tr = true -> acyc (p_hs p) = true -> nth_error (p_screens p) s = Some scr ->
+  nth_error (p_conns p) ci = Some c -> is_normal c = false ->
   let p' := run cf p tr in
-  bstore (p_hs p') /\ screens_kept p p' /\ nth_error (p_conns p') ci = Some c.
+  acyc (p_hs p') = true /\ nth_error (p_screens p') s = Some scr /\ nth_error (p_conns p') ci = Some c.
 Proof.
-  induction tr as [|o tr IH]; intros p ci c Hf Hb Hn Hnn; cbn [run fold_left].
-  - split; [exact Hb|]. split; [intros s scr H; exact H|exact Hn].
+  induction tr as [|o tr IH]; intros p ci s scr c Hf Hb Hs Hn Hnn; cbn [run fold_left].
+  - repeat split; assumption.
   - cbn [forallb] in Hf. apply andb_true_iff in Hf. destruct Hf as [Ho Hf].
-    destruct (step_frame cf p o ci c Ho Hb Hn Hnn) as [S1 [S2 S3]].
-    destruct (IH (step cf p o) ci c Hf S1 S3 Hnn) as [R1 [R2 R3]].
-    split; [exact R1|]. split; [|exact R3]. intros s scr H. apply R2. apply S2. exact H.
+    destruct (step_frame cf p o ci s scr c Ho Hb Hs Hn Hnn) as [S1 [S2 S3]].
+    exact (IH (step cf p o) ci s scr c Hf S1 S2 S3 Hnn).
+Qed.
+
+(* every reachable process has an acyclic handler store: the world of the completeness theorems
+   is the world of all traces *)
+Lemma step_acyc : forall cf p o, acyc (p_hs p) = true -> acyc (p_hs (step cf p o)) = true.
+Proof.
+  intros cf p o Hb. destruct o as [s0|k|k|b|s0 rev bytes eof|cj bytes eof|s0 content]; cbn [step]; try exact Hb.
+  - destruct (is_ext k) eqn:Ek; [|exact Hb].
+    destruct (acyc_register (p_hs p) k Hb Ek) as [st' [-> Ha']]. exact Ha'.
+  - destruct (is_ext k) eqn:Ek; [|exact Hb].
+    destruct (acyc_unregister (cfg_unreg_single cf) (p_hs p) k Hb Ek) as [st' [-> Ha']]. exact Ha'.
+  - destruct (nth_error (p_screens p) s0); [|exact Hb].
+    apply (deliver_frame (S (length bytes)) cf
+             (mkProc (p_hs p) (p_screens p) (p_conns p ++ [new_conn s0 rev]) (p_rand p) (p_err p) (p_unmod p))
+             (length (p_conns p)) bytes eof Hb).
+  - apply (deliver_frame (S (length bytes)) cf p cj bytes eof Hb).
+  - destruct (nth_error (p_screens p) s0) as [scr0|]; [|exact Hb]. destruct (s_pw scr0); exact Hb.
+Qed.
+
+Lemma run_acyc : forall cf tr p, acyc (p_hs p) = true -> acyc (p_hs (run cf p tr)) = true.
+Proof.
+  induction tr as [|o tr IH]; intros p Hb; cbn [run fold_left]; [exact Hb|]. apply IH. apply step_acyc. exact Hb.
 Qed.
 
 Lemma check_list_complete : forall cf pws chal resp pw i0,
@@ -750,54 +791,56 @@ Proof. vm_compute. auto. Qed.
 (* phase 1 (protocol >= 3.7): the version line is answered with the list [VncAuth] *)
 Lemma phase_version : forall p ci c scr ver mi,
   nth_error (p_conns p) ci = Some c -> nth_error (p_screens p) (c_screen c) = Some scr ->
-  c_st c = StPV -> protected scr c = true -> bstore (p_hs p) ->
+  c_st c = StPV -> protected scr c = true -> acyc (p_hs p) = true -> length ext = 4%nat ->
   length ver = 12%nat -> parse_version ver = Some (c05_rfbProtocolMajorVersion, mi) -> (7 <= mi)%Z ->
-  let p' := step cfg_fixed p (OSend ci ver false) in
-  bstore (p_hs p') /\ p_screens p' = p_screens p /\ p_rand p' = p_rand p /\
+  let p' := step cfx p (OSend ci ver false) in
+  acyc (p_hs p') = true /\ p_screens p' = p_screens p /\ p_rand p' = p_rand p /\
+  exists tl, In c05_rfbSecTypeVncAuth tl /\
   nth_error (p_conns p') ci =
-    Some (set_st (add_out (set_minor c mi) [1%N; zbyte c05_rfbSecTypeVncAuth]) StSec).
+    Some (set_st (add_out (set_minor c mi) (N.of_nat (length tl) :: map zbyte tl)) StSec).
 Proof.
-  intros p ci c scr ver mi Hn Hs Hst Hp Hb Hl Hv Hmi. cbv zeta. rewrite step_send.
+  intros p ci c scr ver mi Hn Hs Hst Hp Hb Hext Hl Hv Hmi. cbv zeta. rewrite step_send.
   assert (Hprim : primary_type scr (set_minor c mi) = c05_rfbSecTypeVncAuth).
   { rewrite primary_of_protected. unfold protected in *. cbn [c_rev set_minor]. rewrite Hp. reflexivity. }
-  destruct (send_type_list_bstore cfg_fixed (env_of p) (set_minor c mi) c05_rfbSecTypeVncAuth Hb (or_intror eq_refl))
-    as [st' [Hb' Heq]].
-  assert (Ho : on_message cfg_fixed scr (env_of p) c ver =
+  destruct (send_type_list_acyc (env_of p) (set_minor c mi) c05_rfbSecTypeVncAuth Hb (or_intror eq_refl) Hext)
+    as [st' [tl [Hb' [Hin Heq]]]].
+  assert (Ho : on_message cfx scr (env_of p) c ver =
                (mkEnv st' (p_rand p) (p_err p),
-                set_st (add_out (set_minor c mi) [1%N; zbyte c05_rfbSecTypeVncAuth]) StSec, false)).
+                set_st (add_out (set_minor c mi) (N.of_nat (length tl) :: map zbyte tl)) StSec, false)).
   { unfold on_message. rewrite Hst. unfold on_version. rewrite Hv. rewrite Z.eqb_refl. cbn [negb].
     unfold auth_new_client. cbn [c_minor set_minor].
     assert (Hlt : (mi <? 7)%Z = false) by (apply Z.ltb_ge; exact Hmi). rewrite Hlt.
     rewrite Hprim, Heq. reflexivity. }
-  rewrite (deliver_one cfg_fixed p ci c scr ver _ _ _ Hn Hs (or_introl Hst)
+  rewrite (deliver_one cfx p ci c scr ver _ _ _ Hn Hs (or_introl Hst)
              ltac:(rewrite Hst, Hl; reflexivity) Ho).
   split; [exact Hb'|]. split; [reflexivity|]. split; [reflexivity|].
-  eapply put_conn_nth_self. exact Hn.
+  exists tl. split; [exact Hin|]. eapply put_conn_nth_self. exact Hn.
 Qed.
 
 (* phase 2: choosing the offered type VncAuth is honoured whatever other connections did to the
    global list in the meantime: the challenge is the next 16 random bytes *)
 Lemma phase_choice : forall p ci c scr,
   nth_error (p_conns p) ci = Some c -> nth_error (p_screens p) (c_screen c) = Some scr ->
-  c_st c = StSec -> protected scr c = true -> bstore (p_hs p) ->
+  c_st c = StSec -> protected scr c = true -> acyc (p_hs p) = true -> ext_ok ->
   let ch := fst (take_rand (p_rand p) 16) in
-  let p' := step cfg_fixed p (OSend ci [zbyte c05_rfbSecTypeVncAuth] false) in
-  bstore (p_hs p') /\ p_screens p' = p_screens p /\
+  let p' := step cfx p (OSend ci [zbyte c05_rfbSecTypeVncAuth] false) in
+  acyc (p_hs p') = true /\ p_screens p' = p_screens p /\
   nth_error (p_conns p') ci = Some (set_st (add_out (set_sent (set_chal c ch) ch) ch) StAuth).
 Proof.
-  intros p ci c scr Hn Hs Hst Hp Hb. cbv zeta. rewrite step_send.
+  intros p ci c scr Hn Hs Hst Hp Hb Hext. cbv zeta. rewrite step_send.
   assert (Hprim : primary_type scr c = c05_rfbSecTypeVncAuth) by (rewrite primary_of_protected, Hp; reflexivity).
-  assert (Ho : on_message cfg_fixed scr (env_of p) c [zbyte c05_rfbSecTypeVncAuth] =
+  assert (Ho : on_message cfx scr (env_of p) c [zbyte c05_rfbSecTypeVncAuth] =
                (mkEnv (p_hs p) (snd (take_rand (p_rand p) 16)) (p_err p),
                 set_st (add_out (set_sent (set_chal c (fst (take_rand (p_rand p) 16))) (fst (take_rand (p_rand p) 16)))
                                 (fst (take_rand (p_rand p) 16))) StAuth, false)).
-  { unfold on_message. rewrite Hst. unfold on_sectype. cbn [cfg_fixed cfg_global_check env_of e_hs].
+  { unfold on_message. rewrite Hst. unfold on_sectype. cbn [cfgF cfg_global_check cfg_ext env_of e_hs].
     rewrite Hprim. change (Z.of_N (zbyte c05_rfbSecTypeVncAuth)) with c05_rfbSecTypeVncAuth.
-    rewrite (bstore_find (p_hs p) c05_rfbSecTypeVncAuth Hb (or_intror eq_refl)).
+    rewrite (hs_find_own LIST_FUEL (p_hs p) (h_head (p_hs p)) c05_rfbSecTypeVncAuth Hext (or_intror eq_refl)
+               (acyc_list_ok _ Hb) (acyc_length _ Hb) LIST_FUEL (le_n _)).
     change (builtin_sel c05_rfbSecTypeVncAuth) with HAuth. cbv iota.
     unfold send_challenge, env_of. cbn [e_rand e_hs e_err]. change (Z.to_nat c05_CHALLENGESIZE) with 16%nat.
     destruct (take_rand (p_rand p) 16) as [ch rest]. reflexivity. }
-  rewrite (deliver_one cfg_fixed p ci c scr [zbyte c05_rfbSecTypeVncAuth] _ _ _ Hn Hs (or_intror (or_introl Hst))
+  rewrite (deliver_one cfx p ci c scr [zbyte c05_rfbSecTypeVncAuth] _ _ _ Hn Hs (or_intror (or_introl Hst))
              ltac:(rewrite Hst; reflexivity) Ho).
   split; [exact Hb|]. split; [reflexivity|]. eapply put_conn_nth_self. exact Hn.
 Qed.
@@ -807,7 +850,7 @@ Lemma phase_response : forall p ci c scr pw r,
   nth_error (p_conns p) ci = Some c -> nth_error (p_screens p) (c_screen c) = Some scr ->
   c_st c = StAuth -> length (c_chal c) = 16%nat ->
   In pw (screen_passwords scr) -> vnc_encrypt pw (c_chal c) = Some r ->
-  let p' := step cfg_fixed p (OSend ci r false) in
+  let p' := step cfx p (OSend ci r false) in
   p_hs p' = p_hs p /\ p_screens p' = p_screens p /\
   exists c', nth_error (p_conns p') ci = Some c' /\ c_st c' = StInit /\ c_out c' = c_out c ++ auth_ok /\
              c_screen c' = c_screen c /\ c_rev c' = c_rev c /\ c_resp c' = Some r.
@@ -815,20 +858,20 @@ Proof.
   intros p ci c scr pw r Hn Hs Hst Hlen Hin Henc. cbv zeta. rewrite step_send.
   assert (Hr16 : length r = 16%nat).
   { destruct (vnc_encrypt_some pw (c_chal c) Hlen) as [r' [E L]]. congruence. }
-  assert (Hmatch : bytes_eqb (encrypt_bytes cfg_fixed pw (c_chal c)) r = true).
+  assert (Hmatch : bytes_eqb (encrypt_bytes cfx pw (c_chal c)) r = true).
   { pose proof (encrypt_bytes_fixed pw (c_chal c) Hlen) as E. rewrite Henc in E. injection E as <-. apply bytes_eqb_refl. }
-  assert (Hpc : exists c1, password_check cfg_fixed scr (set_resp c r) r = (true, c1) /\
+  assert (Hpc : exists c1, password_check cfx scr (set_pws (set_resp c r) (screen_passwords scr)) r = (true, c1) /\
                   c_out c1 = c_out c /\ c_screen c1 = c_screen c /\ c_rev c1 = c_rev c /\ c_resp c1 = Some r).
   { unfold password_check, screen_passwords in *. destruct (s_pw scr) as [|pws fvo|content].
     - contradiction.
-    - cbn [c_chal set_resp]. destruct (check_list_complete cfg_fixed pws (c_chal c) r pw 0%Z Hin Hmatch) as [i Hi].
+    - cbn [c_chal set_resp set_pws]. destruct (check_list_complete cfx pws (c_chal c) r pw 0%Z Hin Hmatch) as [i Hi].
       rewrite Hi. eexists. split; [reflexivity|]. destruct (fvo <=? i)%Z; repeat split.
     - destruct (decrypt_passwd_file content) as [pw'|]; [|contradiction].
-      destruct Hin as [<-|[]]. cbn [c_chal set_resp]. rewrite Hmatch. eexists. split; [reflexivity|]. repeat split. }
+      destruct Hin as [<-|[]]. cbn [c_chal set_resp set_pws]. rewrite Hmatch. eexists. split; [reflexivity|]. repeat split. }
   destruct Hpc as [c1 [Hpc [O1 [O2 [O3 O4]]]]].
-  assert (Ho : on_message cfg_fixed scr (env_of p) c r = (env_of p, set_st (add_out c1 auth_ok) StInit, false)).
+  assert (Ho : on_message cfx scr (env_of p) c r = (env_of p, set_st (add_out c1 auth_ok) StInit, false)).
   { unfold on_message. rewrite Hst. unfold on_response. rewrite Hpc. reflexivity. }
-  rewrite (deliver_one cfg_fixed p ci c scr r _ _ _ Hn Hs (or_intror (or_intror (or_introl Hst)))
+  rewrite (deliver_one cfx p ci c scr r _ _ _ Hn Hs (or_intror (or_intror (or_introl Hst)))
              ltac:(rewrite Hst, Hr16; reflexivity) Ho).
   split; [reflexivity|]. split; [reflexivity|].
   eexists. split; [eapply put_conn_nth_self; exact Hn|]. cbn. rewrite O1. repeat split; assumption.
@@ -838,15 +881,15 @@ Qed.
 Lemma phase_init : forall p ci c scr b,
   nth_error (p_conns p) ci = Some c -> nth_error (p_screens p) (c_screen c) = Some scr ->
   c_st c = StInit ->
-  let p' := step cfg_fixed p (OSend ci [b] false) in
+  let p' := step cfx p (OSend ci [b] false) in
   exists c', nth_error (p_conns p') ci = Some c' /\ c_st c' = StNormal /\
              c_out c' = c_out c ++ server_init scr.
 Proof.
   intros p ci c scr b Hn Hs Hst. cbv zeta. rewrite step_send.
-  assert (Ho : on_message cfg_fixed scr (env_of p) c [b] =
+  assert (Ho : on_message cfx scr (env_of p) c [b] =
                (env_of p, set_st (add_out c (server_init scr)) StNormal, negb (c_rev c) && N.eqb b 0)).
   { unfold on_message. rewrite Hst. reflexivity. }
-  rewrite (deliver_one cfg_fixed p ci c scr [b] _ _ _ Hn Hs (or_intror (or_intror (or_intror Hst)))
+  rewrite (deliver_one cfx p ci c scr [b] _ _ _ Hn Hs (or_intror (or_intror (or_intror Hst)))
              ltac:(rewrite Hst; reflexivity) Ho).
   eexists. split; [eapply put_conn_nth_self; exact Hn|]. split; reflexivity.
 Qed.
@@ -855,97 +898,64 @@ Qed.
    and answers the challenge with its DES encryption under a configured password is told OK and
    is given ServerInit - whatever other connections (to this or other screens, inbound or
    reverse) and new screens do between its messages (tr1, tr2, tr3 arbitrary foreign traces).
-   World: the application registers no security handler of its own ([bstore]). *)
+   World: any acyclic handler store (every reachable process, [run_acyc]); the application may register
+   and unregister its own handlers at any time, provided none has a built-in type ([ext_ok]). *)
 Lemma complete_fixed : forall p0 s scr pw ver mi tr1 tr2 tr3 b,
-  bstore (p_hs p0) -> nth_error (p_screens p0) s = Some scr -> has_password scr = true ->
+  acyc (p_hs p0) = true -> ext_ok -> nth_error (p_screens p0) s = Some scr -> has_password scr = true ->
   In pw (screen_passwords scr) ->
   length ver = 12%nat -> parse_version ver = Some (c05_rfbProtocolMajorVersion, mi) -> (7 <= mi)%Z ->
   let ci := length (p_conns p0) in
-  forallb (foreign ci) tr1 = true -> forallb (foreign ci) tr2 = true -> forallb (foreign ci) tr3 = true ->
-  let p1 := step cfg_fixed p0 (OConn s false ver false) in
-  let p2 := run cfg_fixed p1 tr1 in
+  forallb (foreign ci s) tr1 = true -> forallb (foreign ci s) tr2 = true -> forallb (foreign ci s) tr3 = true ->
+  let p1 := step cfx p0 (OConn s false ver false) in
+  let p2 := run cfx p1 tr1 in
   let ch := fst (take_rand (p_rand p2) 16) in
-  let p3 := step cfg_fixed p2 (OSend ci [zbyte c05_rfbSecTypeVncAuth] false) in
-  let p4 := run cfg_fixed p3 tr2 in
+  let p3 := step cfx p2 (OSend ci [zbyte c05_rfbSecTypeVncAuth] false) in
+  let p4 := run cfx p3 tr2 in
   forall r, vnc_encrypt pw ch = Some r ->
-  let p5 := step cfg_fixed p4 (OSend ci r false) in
-  let p6 := run cfg_fixed p5 tr3 in
-  let p7 := step cfg_fixed p6 (OSend ci [b] false) in
-  exists c, nth_error (p_conns p7) ci = Some c /\ c_st c = StNormal /\
-            c_out c = server_version ++ [1%N; zbyte c05_rfbSecTypeVncAuth] ++ ch ++ auth_ok ++ server_init scr.
+  let p5 := step cfx p4 (OSend ci r false) in
+  let p6 := run cfx p5 tr3 in
+  let p7 := step cfx p6 (OSend ci [b] false) in
+  exists c tl, nth_error (p_conns p7) ci = Some c /\ c_st c = StNormal /\ In c05_rfbSecTypeVncAuth tl /\
+            c_out c = server_version ++ (N.of_nat (length tl) :: map zbyte tl) ++ ch ++ auth_ok ++ server_init scr.
 Proof.
-  intros p0 s scr pw ver mi tr1 tr2 tr3 b Hb Hs Hpw Hin Hl Hv Hmi ci F1 F2 F3 p1 p2 ch p3 p4 r Hr p5 p6 p7.
+  intros p0 s scr pw ver mi tr1 tr2 tr3 b Hb Hext Hs Hpw Hin Hl Hv Hmi ci F1 F2 F3 p1 p2 ch p3 p4 r Hr p5 p6 p7.
   (* phase 1 *)
   set (q := mkProc (p_hs p0) (p_screens p0) (p_conns p0 ++ [new_conn s false]) (p_rand p0) (p_err p0) (p_unmod p0)).
-  assert (Hp1 : p1 = step cfg_fixed q (OSend ci ver false)).
+  assert (Hp1 : p1 = step cfx q (OSend ci ver false)).
   { unfold p1. cbn [step]. rewrite Hs. reflexivity. }
   assert (Hq : nth_error (p_conns q) ci = Some (new_conn s false)).
   { unfold q, ci. cbn [p_conns]. rewrite nth_error_app2 by lia. rewrite Nat.sub_diag. reflexivity. }
   assert (Hprot : protected scr (new_conn s false) = true) by (unfold protected; rewrite Hpw; reflexivity).
-  destruct (phase_version q ci (new_conn s false) scr ver mi Hq Hs eq_refl Hprot Hb Hl Hv Hmi) as [B1 [S1 [_ C1]]].
+  destruct (phase_version q ci (new_conn s false) scr ver mi Hq Hs eq_refl Hprot Hb (proj1 Hext) Hl Hv Hmi)
+    as [B1 [S1 [_ [tl [Htl C1]]]]].
   rewrite <- Hp1 in B1, S1, C1.
-  set (c1 := set_st (add_out (set_minor (new_conn s false) mi) [1%N; zbyte c05_rfbSecTypeVncAuth]) StSec) in *.
+  set (c1 := set_st (add_out (set_minor (new_conn s false) mi) (N.of_nat (length tl) :: map zbyte tl)) StSec) in *.
   assert (K1 : nth_error (p_screens p1) s = Some scr) by (rewrite S1; exact Hs).
   (* tr1 *)
-  destruct (run_frame cfg_fixed tr1 p1 ci c1 F1 B1 C1 eq_refl) as [B2 [S2 C2]]. fold p2 in B2, S2, C2.
-  assert (K2 : nth_error (p_screens p2) s = Some scr) by (apply S2; exact K1).
+  destruct (run_frame cfx tr1 p1 ci s scr c1 F1 B1 K1 C1 eq_refl) as [B2 [K2 C2]]. fold p2 in B2, K2, C2.
   (* phase 2 *)
-  destruct (phase_choice p2 ci c1 scr C2 K2 eq_refl Hprot B2) as [B3 [S3 C3]]. fold ch p3 in B3, S3, C3.
+  destruct (phase_choice p2 ci c1 scr C2 K2 eq_refl Hprot B2 Hext) as [B3 [S3 C3]]. fold ch p3 in B3, S3, C3.
   set (c3 := set_st (add_out (set_sent (set_chal c1 ch) ch) ch) StAuth) in *.
   assert (K3 : nth_error (p_screens p3) s = Some scr) by (rewrite S3; exact K2).
   (* tr2 *)
-  destruct (run_frame cfg_fixed tr2 p3 ci c3 F2 B3 C3 eq_refl) as [B4 [S4 C4]]. fold p4 in B4, S4, C4.
-  assert (K4 : nth_error (p_screens p4) s = Some scr) by (apply S4; exact K3).
+  destruct (run_frame cfx tr2 p3 ci s scr c3 F2 B3 K3 C3 eq_refl) as [B4 [K4 C4]]. fold p4 in B4, K4, C4.
   (* phase 3 *)
   assert (Hch : length ch = 16%nat) by (apply take_rand_length).
   destruct (phase_response p4 ci c3 scr pw r C4 K4 eq_refl Hch Hin Hr) as [H5 [S5 [c5 [C5 [T5 [O5 [Sc5 [R5 _]]]]]]]].
   fold p5 in H5, S5, C5.
-  assert (B5 : bstore (p_hs p5)) by (rewrite H5; exact B4).
+  assert (B5 : acyc (p_hs p5) = true) by (rewrite H5; exact B4).
   assert (K5 : nth_error (p_screens p5) s = Some scr) by (rewrite S5; exact K4).
   (* tr3 *)
   assert (N5 : is_normal c5 = false) by (unfold is_normal; rewrite T5; reflexivity).
-  destruct (run_frame cfg_fixed tr3 p5 ci c5 F3 B5 C5 N5) as [B6 [S6 C6]]. fold p6 in B6, S6, C6.
-  assert (K6 : nth_error (p_screens p6) (c_screen c5) = Some scr) by (rewrite Sc5; apply S6; exact K5).
+  destruct (run_frame cfx tr3 p5 ci s scr c5 F3 B5 K5 C5 N5) as [B6 [K6' C6]]. fold p6 in B6, K6', C6.
+  assert (K6 : nth_error (p_screens p6) (c_screen c5) = Some scr) by (rewrite Sc5; exact K6').
   (* phase 4 *)
   destruct (phase_init p6 ci c5 scr b C6 K6 T5) as [c7 [C7 [T7 O7]]]. fold p7 in C7.
-  exists c7. split; [exact C7|]. split; [exact T7|].
+  exists c7, tl. split; [exact C7|]. split; [exact T7|]. split; [exact Htl|].
   rewrite O7, O5. cbn [c3 c1 c_out set_st add_out set_sent set_chal set_minor new_conn].
   repeat rewrite <- app_assoc. reflexivity.
 Qed.
 
-(* the hypotheses of [complete_fixed] are satisfiable, with other connections interleaved *)
-Example complete_fixed_nonvacuous :
-  let p0 := run cfg_fixed proc_init [OScreen demo_screen; OScreen open_screen; ORand demo_chal] in
-  let tr := [OConn 1 false v38 false; OSend 1 [1%N] false; OConn 0 true v38 false] in
-  bstore (p_hs p0) /\ nth_error (p_screens p0) 0 = Some demo_screen /\ has_password demo_screen = true /\
-  In demo_pw (screen_passwords demo_screen) /\ parse_version v38 = Some (c05_rfbProtocolMajorVersion, 8%Z) /\
-  forallb (foreign (length (p_conns p0))) tr = true /\
-  vnc_encrypt demo_pw demo_chal = Some demo_resp.
-Proof.
-  cbv zeta. split; [left; reflexivity|]. split; [reflexivity|]. split; [reflexivity|].
-  split; [left; reflexivity|]. split; [vm_compute; reflexivity|]. split; vm_compute; reflexivity.
-Qed.
-
-(* a process whose application never registers a handler stays in the [bstore] world *)
-Definition no_app_op (o : op) : bool := match o with OReg _ | OUnreg _ => false | _ => true end.
-
-Lemma step_bstore : forall cf p o, no_app_op o = true -> bstore (p_hs p) -> bstore (p_hs (step cf p o)).
-Proof.
-  intros cf p o Hn Hb. destruct o as [s|k|k|b|s rev bytes eof|cj bytes eof]; cbn [step no_app_op] in *;
-    try discriminate; try exact Hb.
-  - destruct (nth_error (p_screens p) s); [|exact Hb].
-    apply (deliver_frame (S (length bytes)) cf
-             (mkProc (p_hs p) (p_screens p) (p_conns p ++ [new_conn s rev]) (p_rand p) (p_err p) (p_unmod p))
-             (length (p_conns p)) bytes eof Hb).
-  - apply (deliver_frame (S (length bytes)) cf p cj bytes eof Hb).
-Qed.
-
-Lemma run_bstore : forall cf tr p, forallb no_app_op tr = true -> bstore (p_hs p) -> bstore (p_hs (run cf p tr)).
-Proof.
-  induction tr as [|o tr IH]; intros p Hf Hb; cbn [run fold_left]; [exact Hb|].
-  cbn [forallb] in Hf. apply andb_true_iff in Hf. destruct Hf as [Ho Hf].
-  apply IH; [exact Hf|]. apply step_bstore; assumption.
-Qed.
 
 (* ---------------------------------------------------------------- view-only passwords *)
 Definition matches (cf : cfg) (chal resp pw : list N) : bool := bytes_eqb (encrypt_bytes cf pw chal) resp.
@@ -976,27 +986,21 @@ Qed.
 Lemma viewonly_fixed : forall p ci c scr pws fvo r i,
   nth_error (p_conns p) ci = Some c -> nth_error (p_screens p) (c_screen c) = Some scr ->
   s_pw scr = PwList pws fvo -> c_st c = StAuth -> c_vo c = false -> length r = 16%nat ->
-  check_list cfg_fixed pws (c_chal c) r 0 = Some i ->
-  let p' := step cfg_fixed p (OSend ci r false) in
+  check_list cfx pws (c_chal c) r 0 = Some i ->
+  let p' := step cfx p (OSend ci r false) in
   exists c', nth_error (p_conns p') ci = Some c' /\ c_st c' = StInit /\ c_vo c' = (fvo <=? i)%Z.
 Proof.
   intros p ci c scr pws fvo r i Hn Hs Hpw Hst Hvo Hr Hi. cbv zeta. rewrite step_send.
-  assert (Ho : on_message cfg_fixed scr (env_of p) c r =
-    (env_of p, set_st (add_out (if (fvo <=? i)%Z then set_vo (set_resp c r) true else set_resp c r) auth_ok) StInit, false)).
-  { unfold on_message. rewrite Hst. unfold on_response, password_check. rewrite Hpw. cbn [c_chal set_resp].
+  assert (Ho : on_message cfx scr (env_of p) c r =
+    (env_of p, set_st (add_out (if (fvo <=? i)%Z then set_vo (set_pws (set_resp c r) (screen_passwords scr)) true
+                                else set_pws (set_resp c r) (screen_passwords scr)) auth_ok) StInit, false)).
+  { unfold on_message. rewrite Hst. unfold on_response, password_check. rewrite Hpw. cbn [c_chal set_resp set_pws].
     rewrite Hi. reflexivity. }
-  rewrite (deliver_one cfg_fixed p ci c scr r _ _ _ Hn Hs (or_intror (or_intror (or_introl Hst)))
+  rewrite (deliver_one cfx p ci c scr r _ _ _ Hn Hs (or_intror (or_intror (or_introl Hst)))
              ltac:(rewrite Hst, Hr; reflexivity) Ho).
   eexists. split; [eapply put_conn_nth_self; exact Hn|]. split; [reflexivity|].
   destruct (fvo <=? i)%Z; cbn; [reflexivity|exact Hvo].
 Qed.
-
-Example viewonly_nonvacuous :
-  map (fun c => (c_st c, c_vo c))
-      (p_conns (run cfg_fixed proc_init
-         [OScreen (mkScreen (PwList [[120%N]; demo_pw] 1) 4 3 []); ORand demo_chal; OConn 0 false v33 false;
-          OSend 0 demo_resp false])) = [(StInit, true)].
-Proof. vm_compute. reflexivity. Qed.
 
 (* ---------------------------------------------------------------- message shapes per protocol version *)
 (* protocol 3.3 (minor < 7): 4-byte security type, followed by the challenge when it is VncAuth *)
@@ -1025,16 +1029,18 @@ Qed.
 
 (* protocol >= 3.7: count + list; without application handlers the list is exactly the type the
    screen requires for this client *)
-Lemma versions_37 : forall cf scr e c ver mi,
-  c_st c = StPV -> parse_version ver = Some (c05_rfbProtocolMajorVersion, mi) -> (7 <= mi)%Z -> bstore (e_hs e) ->
-  exists e' c', on_message cf scr e c ver = (e', c', false) /\ c_minor c' = mi /\ c_st c' = StSec /\
-    c_out c' = c_out c ++ [1%N; zbyte (primary_type scr c)].
+Lemma versions_37 : forall scr e c ver mi,
+  c_st c = StPV -> parse_version ver = Some (c05_rfbProtocolMajorVersion, mi) -> (7 <= mi)%Z ->
+  acyc (e_hs e) = true -> length ext = 4%nat ->
+  exists e' c' tl, on_message cfx scr e c ver = (e', c', false) /\ c_minor c' = mi /\ c_st c' = StSec /\
+    In (primary_type scr c) tl /\ c_out c' = c_out c ++ N.of_nat (length tl) :: map zbyte tl.
 Proof.
-  intros cf scr e c ver mi Hst Hv Hmi Hb. unfold on_message. rewrite Hst. unfold on_version. rewrite Hv.
+  intros scr e c ver mi Hst Hv Hmi Hb Hext. unfold on_message. rewrite Hst. unfold on_version. rewrite Hv.
   rewrite Z.eqb_refl. cbn [negb]. unfold auth_new_client. cbn [c_minor set_minor].
   assert (Hlt : (mi <? 7)%Z = false) by (apply Z.ltb_ge; exact Hmi). rewrite Hlt.
-  destruct (send_type_list_bstore cf e (set_minor c mi) _ Hb (primary_is_prim scr (set_minor c mi))) as [st' [_ Heq]].
-  rewrite Heq. eexists. eexists. split; [reflexivity|]. repeat split.
+  destruct (send_type_list_acyc e (set_minor c mi) _ Hb (is_prim_primary scr (set_minor c mi)) Hext)
+    as [st' [tl [_ [Hin Heq]]]].
+  rewrite Heq. eexists. eexists. exists tl. split; [reflexivity|]. repeat split. exact Hin.
 Qed.
 
 Lemma password_check_out : forall cf s c r b c1,
@@ -1054,9 +1060,9 @@ Proof.
 Qed.
 
 Lemma no_match_fixed : forall pw chal r, length chal = 16%nat ->
-  vnc_encrypt pw chal <> Some r -> matches cfg_fixed chal r pw = false.
+  vnc_encrypt pw chal <> Some r -> matches cfx chal r pw = false.
 Proof.
-  intros pw chal r Hl Hne. unfold matches. destruct (bytes_eqb (encrypt_bytes cfg_fixed pw chal) r) eqn:E; [|reflexivity].
+  intros pw chal r Hl Hne. unfold matches. destruct (bytes_eqb (encrypt_bytes cfx pw chal) r) eqn:E; [|reflexivity].
   exfalso. apply Hne. apply bytes_eqb_eq in E. rewrite <- E. apply encrypt_bytes_fixed. exact Hl.
 Qed.
 
@@ -1066,18 +1072,18 @@ Qed.
 Lemma versions_failure : forall scr e c r,
   c_st c = StAuth -> length (c_chal c) = 16%nat ->
   (forall pw, In pw (screen_passwords scr) -> vnc_encrypt pw (c_chal c) <> Some r) ->
-  exists c', on_message cfg_fixed scr e c r = (e, c', false) /\ c_st c' = StClosed /\
+  exists c', on_message cfx scr e c r = (e, c', false) /\ c_st c' = StClosed /\
     c_out c' = c_out c ++ auth_failed ++
                (if (7 <? c_minor c)%Z then be32 (N.of_nat (length reason_failed)) ++ reason_failed else []).
 Proof.
   intros scr e c r Hst Hl Hno. unfold on_message. rewrite Hst. unfold on_response.
-  assert (Hpc : exists c1, password_check cfg_fixed scr (set_resp c r) r = (false, c1)).
+  assert (Hpc : exists c1, password_check cfx scr (set_pws (set_resp c r) (screen_passwords scr)) r = (false, c1)).
   { unfold password_check, screen_passwords in *. destruct (s_pw scr) as [|pws fvo|content].
     - eauto.
-    - cbn [c_chal set_resp]. rewrite check_list_none; [eauto|].
+    - cbn [c_chal set_resp set_pws]. rewrite check_list_none; [eauto|].
       intros pw Hin. apply no_match_fixed; [exact Hl|]. apply Hno. exact Hin.
     - destruct (decrypt_passwd_file content) as [pw|]; [|eauto].
-      cbn [c_chal set_resp]. fold (matches cfg_fixed (c_chal c) r pw).
+      cbn [c_chal set_resp set_pws]. fold (matches cfx (c_chal c) r pw).
       rewrite (no_match_fixed pw (c_chal c) r Hl (Hno pw (or_introl eq_refl))). eauto. }
   destruct Hpc as [c1 Hpc]. rewrite Hpc. destruct (password_check_out _ _ _ _ _ _ Hpc) as [O1 _]. cbn in O1.
   eexists. split; [reflexivity|]. split; [reflexivity|].
@@ -1097,6 +1103,83 @@ Proof.
   destruct (c_minor c =? 889)%Z eqn:E889; destruct (7 <? c_minor c)%Z; cbn; repeat split;
     rewrite ?app_nil_r, ?andb_false_r; auto.
 Qed.
+
+(* ---------------------------------------------------------------- completeness, protocol 3.3 *)
+Lemma phase_version33 : forall p ci c scr ver mi,
+  nth_error (p_conns p) ci = Some c -> nth_error (p_screens p) (c_screen c) = Some scr ->
+  c_st c = StPV -> protected scr c = true ->
+  length ver = 12%nat -> parse_version ver = Some (c05_rfbProtocolMajorVersion, mi) -> (mi < 7)%Z ->
+  let ch := fst (take_rand (p_rand p) 16) in
+  let p' := step cfx p (OSend ci ver false) in
+  p_hs p' = p_hs p /\ p_screens p' = p_screens p /\
+  nth_error (p_conns p') ci =
+    Some (set_st (add_out (set_sent (set_chal (add_out (set_minor c mi) (be32 (Z.to_N c05_rfbSecTypeVncAuth))) ch) ch) ch) StAuth).
+Proof.
+  intros p ci c scr ver mi Hn Hs Hst Hp Hl Hv Hmi. cbv zeta. rewrite step_send.
+  assert (Ho : on_message cfx scr (env_of p) c ver =
+    (mkEnv (p_hs p) (snd (take_rand (p_rand p) 16)) (p_err p),
+     set_st (add_out (set_sent (set_chal (add_out (set_minor c mi) (be32 (Z.to_N c05_rfbSecTypeVncAuth)))
+                                         (fst (take_rand (p_rand p) 16))) (fst (take_rand (p_rand p) 16)))
+                     (fst (take_rand (p_rand p) 16))) StAuth, false)).
+  { unfold on_message. rewrite Hst. unfold on_version. rewrite Hv. rewrite Z.eqb_refl. cbn [negb].
+    unfold auth_new_client. cbn [c_minor set_minor].
+    assert (Hlt : (mi <? 7)%Z = true) by (apply Z.ltb_lt; exact Hmi). rewrite Hlt.
+    unfold send_type_33. rewrite primary_of_protected.
+    assert (Hp' : protected scr (set_minor c mi) = true) by exact Hp. rewrite Hp'.
+    change (c05_rfbSecTypeVncAuth =? c05_rfbSecTypeNone)%Z with false. cbv iota.
+    unfold send_challenge, env_of. cbn [e_rand e_hs e_err]. change (Z.to_nat c05_CHALLENGESIZE) with 16%nat.
+    destruct (take_rand (p_rand p) 16) as [ch rest]. reflexivity. }
+  rewrite (deliver_one cfx p ci c scr ver _ _ _ Hn Hs (or_introl Hst)
+             ltac:(rewrite Hst, Hl; reflexivity) Ho).
+  split; [reflexivity|]. split; [reflexivity|]. eapply put_conn_nth_self. exact Hn.
+Qed.
+
+Lemma complete_fixed_33 : forall p0 s scr pw ver mi tr2 tr3 b,
+  acyc (p_hs p0) = true -> nth_error (p_screens p0) s = Some scr -> has_password scr = true ->
+  In pw (screen_passwords scr) ->
+  length ver = 12%nat -> parse_version ver = Some (c05_rfbProtocolMajorVersion, mi) -> (mi < 7)%Z ->
+  let ci := length (p_conns p0) in
+  forallb (foreign ci s) tr2 = true -> forallb (foreign ci s) tr3 = true ->
+  let ch := fst (take_rand (p_rand p0) 16) in
+  let p3 := step cfx p0 (OConn s false ver false) in
+  let p4 := run cfx p3 tr2 in
+  forall r, vnc_encrypt pw ch = Some r ->
+  let p5 := step cfx p4 (OSend ci r false) in
+  let p6 := run cfx p5 tr3 in
+  let p7 := step cfx p6 (OSend ci [b] false) in
+  exists c, nth_error (p_conns p7) ci = Some c /\ c_st c = StNormal /\
+            c_out c = server_version ++ be32 (Z.to_N c05_rfbSecTypeVncAuth) ++ ch ++ auth_ok ++ server_init scr.
+Proof.
+  intros p0 s scr pw ver mi tr2 tr3 b Hb Hs Hpw Hin Hl Hv Hmi ci F2 F3 ch p3 p4 r Hr p5 p6 p7.
+  set (q := mkProc (p_hs p0) (p_screens p0) (p_conns p0 ++ [new_conn s false]) (p_rand p0) (p_err p0) (p_unmod p0)).
+  assert (Hp3 : p3 = step cfx q (OSend ci ver false)).
+  { unfold p3. cbn [step]. rewrite Hs. reflexivity. }
+  assert (Hq : nth_error (p_conns q) ci = Some (new_conn s false)).
+  { unfold q, ci. cbn [p_conns]. rewrite nth_error_app2 by lia. rewrite Nat.sub_diag. reflexivity. }
+  assert (Hprot : protected scr (new_conn s false) = true) by (unfold protected; rewrite Hpw; reflexivity).
+  destruct (phase_version33 q ci (new_conn s false) scr ver mi Hq Hs eq_refl Hprot Hl Hv Hmi) as [H3 [S3 C3]].
+  rewrite <- Hp3 in H3, S3, C3. change (p_rand q) with (p_rand p0) in C3. fold ch in C3.
+  set (c3 := set_st (add_out (set_sent (set_chal (add_out (set_minor (new_conn s false) mi)
+                (be32 (Z.to_N c05_rfbSecTypeVncAuth))) ch) ch) ch) StAuth) in *.
+  assert (B3 : acyc (p_hs p3) = true) by (rewrite H3; exact Hb).
+  assert (K3 : nth_error (p_screens p3) s = Some scr) by (rewrite S3; exact Hs).
+  destruct (run_frame cfx tr2 p3 ci s scr c3 F2 B3 K3 C3 eq_refl) as [B4 [K4 C4]]. fold p4 in B4, K4, C4.
+  assert (Hch : length ch = 16%nat) by (apply take_rand_length).
+  destruct (phase_response p4 ci c3 scr pw r C4 K4 eq_refl Hch Hin Hr) as [H5 [S5 [c5 [C5 [T5 [O5 [Sc5 [R5 _]]]]]]]].
+  fold p5 in H5, S5, C5.
+  assert (B5 : acyc (p_hs p5) = true) by (rewrite H5; exact B4).
+  assert (K5 : nth_error (p_screens p5) s = Some scr) by (rewrite S5; exact K4).
+  assert (N5 : is_normal c5 = false) by (unfold is_normal; rewrite T5; reflexivity).
+  destruct (run_frame cfx tr3 p5 ci s scr c5 F3 B5 K5 C5 N5) as [B6 [K6' C6]]. fold p6 in B6, K6', C6.
+  assert (K6 : nth_error (p_screens p6) (c_screen c5) = Some scr) by (rewrite Sc5; exact K6').
+  destruct (phase_init p6 ci c5 scr b C6 K6 T5) as [c7 [C7 [T7 O7]]]. fold p7 in C7.
+  exists c7. split; [exact C7|]. split; [exact T7|].
+  rewrite O7, O5. cbn [c3 c_out set_st add_out set_sent set_chal set_minor new_conn].
+  repeat rewrite <- app_assoc. reflexivity.
+Qed.
+
+
+End Fixed.
 
 (* ---------------------------------------------------------------- fuel *)
 (* [deliver] is called with fuel S (length buf); any larger fuel gives the same result, i.e. the
@@ -1154,120 +1237,23 @@ Lemma deliver_fuel_suffices : forall extra cf p ci buf eof,
   deliver (S (length buf) + extra) cf p ci buf eof = deliver (S (length buf)) cf p ci buf eof.
 Proof. intros. apply deliver_fuel_indep; lia. Qed.
 
-(* ---------------------------------------------------------------- completeness, protocol 3.3 *)
-Lemma phase_version33 : forall p ci c scr ver mi,
-  nth_error (p_conns p) ci = Some c -> nth_error (p_screens p) (c_screen c) = Some scr ->
-  c_st c = StPV -> protected scr c = true ->
-  length ver = 12%nat -> parse_version ver = Some (c05_rfbProtocolMajorVersion, mi) -> (mi < 7)%Z ->
-  let ch := fst (take_rand (p_rand p) 16) in
-  let p' := step cfg_fixed p (OSend ci ver false) in
-  p_hs p' = p_hs p /\ p_screens p' = p_screens p /\
-  nth_error (p_conns p') ci =
-    Some (set_st (add_out (set_sent (set_chal (add_out (set_minor c mi) (be32 (Z.to_N c05_rfbSecTypeVncAuth))) ch) ch) ch) StAuth).
+
+(* on_response records the password set of the screen at the moment of the check, and the response *)
+Lemma password_check_keeps : forall cf s c r b c1,
+  password_check cf s c r = (b, c1) -> c_pws c1 = c_pws c /\ c_resp c1 = c_resp c.
 Proof.
-  intros p ci c scr ver mi Hn Hs Hst Hp Hl Hv Hmi. cbv zeta. rewrite step_send.
-  assert (Ho : on_message cfg_fixed scr (env_of p) c ver =
-    (mkEnv (p_hs p) (snd (take_rand (p_rand p) 16)) (p_err p),
-     set_st (add_out (set_sent (set_chal (add_out (set_minor c mi) (be32 (Z.to_N c05_rfbSecTypeVncAuth)))
-                                         (fst (take_rand (p_rand p) 16))) (fst (take_rand (p_rand p) 16)))
-                     (fst (take_rand (p_rand p) 16))) StAuth, false)).
-  { unfold on_message. rewrite Hst. unfold on_version. rewrite Hv. rewrite Z.eqb_refl. cbn [negb].
-    unfold auth_new_client. cbn [c_minor set_minor].
-    assert (Hlt : (mi <? 7)%Z = true) by (apply Z.ltb_lt; exact Hmi). rewrite Hlt.
-    unfold send_type_33. rewrite primary_of_protected.
-    assert (Hp' : protected scr (set_minor c mi) = true) by exact Hp. rewrite Hp'.
-    change (c05_rfbSecTypeVncAuth =? c05_rfbSecTypeNone)%Z with false. cbv iota.
-    unfold send_challenge, env_of. cbn [e_rand e_hs e_err]. change (Z.to_nat c05_CHALLENGESIZE) with 16%nat.
-    destruct (take_rand (p_rand p) 16) as [ch rest]. reflexivity. }
-  rewrite (deliver_one cfg_fixed p ci c scr ver _ _ _ Hn Hs (or_introl Hst)
-             ltac:(rewrite Hst, Hl; reflexivity) Ho).
-  split; [reflexivity|]. split; [reflexivity|]. eapply put_conn_nth_self. exact Hn.
+  intros cf s c r b c1 H. unfold password_check in H. destruct (s_pw s) as [|pws fvo|content].
+  - injection H as <- <-. auto.
+  - destruct (check_list cf pws (c_chal c) r 0); injection H as <- <-; [destruct (fvo <=? z)%Z|]; auto.
+  - destruct (decrypt_passwd_file content); injection H as <- <-; auto.
 Qed.
 
-Lemma complete_fixed_33 : forall p0 s scr pw ver mi tr2 tr3 b,
-  bstore (p_hs p0) -> nth_error (p_screens p0) s = Some scr -> has_password scr = true ->
-  In pw (screen_passwords scr) ->
-  length ver = 12%nat -> parse_version ver = Some (c05_rfbProtocolMajorVersion, mi) -> (mi < 7)%Z ->
-  let ci := length (p_conns p0) in
-  forallb (foreign ci) tr2 = true -> forallb (foreign ci) tr3 = true ->
-  let ch := fst (take_rand (p_rand p0) 16) in
-  let p3 := step cfg_fixed p0 (OConn s false ver false) in
-  let p4 := run cfg_fixed p3 tr2 in
-  forall r, vnc_encrypt pw ch = Some r ->
-  let p5 := step cfg_fixed p4 (OSend ci r false) in
-  let p6 := run cfg_fixed p5 tr3 in
-  let p7 := step cfg_fixed p6 (OSend ci [b] false) in
-  exists c, nth_error (p_conns p7) ci = Some c /\ c_st c = StNormal /\
-            c_out c = server_version ++ be32 (Z.to_N c05_rfbSecTypeVncAuth) ++ ch ++ auth_ok ++ server_init scr.
+Lemma on_response_snapshot : forall cf s e c resp e' c',
+  on_response cf s e c resp = (e', c') -> c_pws c' = screen_passwords s /\ c_resp c' = Some resp.
 Proof.
-  intros p0 s scr pw ver mi tr2 tr3 b Hb Hs Hpw Hin Hl Hv Hmi ci F2 F3 ch p3 p4 r Hr p5 p6 p7.
-  set (q := mkProc (p_hs p0) (p_screens p0) (p_conns p0 ++ [new_conn s false]) (p_rand p0) (p_err p0) (p_unmod p0)).
-  assert (Hp3 : p3 = step cfg_fixed q (OSend ci ver false)).
-  { unfold p3. cbn [step]. rewrite Hs. reflexivity. }
-  assert (Hq : nth_error (p_conns q) ci = Some (new_conn s false)).
-  { unfold q, ci. cbn [p_conns]. rewrite nth_error_app2 by lia. rewrite Nat.sub_diag. reflexivity. }
-  assert (Hprot : protected scr (new_conn s false) = true) by (unfold protected; rewrite Hpw; reflexivity).
-  destruct (phase_version33 q ci (new_conn s false) scr ver mi Hq Hs eq_refl Hprot Hl Hv Hmi) as [H3 [S3 C3]].
-  rewrite <- Hp3 in H3, S3, C3. change (p_rand q) with (p_rand p0) in C3. fold ch in C3.
-  set (c3 := set_st (add_out (set_sent (set_chal (add_out (set_minor (new_conn s false) mi)
-                (be32 (Z.to_N c05_rfbSecTypeVncAuth))) ch) ch) ch) StAuth) in *.
-  assert (B3 : bstore (p_hs p3)) by (rewrite H3; exact Hb).
-  assert (K3 : nth_error (p_screens p3) s = Some scr) by (rewrite S3; exact Hs).
-  destruct (run_frame cfg_fixed tr2 p3 ci c3 F2 B3 C3 eq_refl) as [B4 [S4 C4]]. fold p4 in B4, S4, C4.
-  assert (K4 : nth_error (p_screens p4) s = Some scr) by (apply S4; exact K3).
-  assert (Hch : length ch = 16%nat) by (apply take_rand_length).
-  destruct (phase_response p4 ci c3 scr pw r C4 K4 eq_refl Hch Hin Hr) as [H5 [S5 [c5 [C5 [T5 [O5 [Sc5 [R5 _]]]]]]]].
-  fold p5 in H5, S5, C5.
-  assert (B5 : bstore (p_hs p5)) by (rewrite H5; exact B4).
-  assert (K5 : nth_error (p_screens p5) s = Some scr) by (rewrite S5; exact K4).
-  assert (N5 : is_normal c5 = false) by (unfold is_normal; rewrite T5; reflexivity).
-  destruct (run_frame cfg_fixed tr3 p5 ci c5 F3 B5 C5 N5) as [B6 [S6 C6]]. fold p6 in B6, S6, C6.
-  assert (K6 : nth_error (p_screens p6) (c_screen c5) = Some scr) by (rewrite Sc5; apply S6; exact K5).
-  destruct (phase_init p6 ci c5 scr b C6 K6 T5) as [c7 [C7 [T7 O7]]]. fold p7 in C7.
-  exists c7. split; [exact C7|]. split; [exact T7|].
-  rewrite O7, O5. cbn [c3 c_out set_st add_out set_sent set_chal set_minor new_conn].
-  repeat rewrite <- app_assoc. reflexivity.
-Qed.
-
-(* the availability half of section 7 F1a on the code before fix 1: the type offered to X is refused after a
-   connection to another screen; the fixed code honours it *)
-Definition f1a_refused_trace : list op :=
-  [OScreen demo_screen; OScreen open_screen; ORand demo_chal; OConn 0 false v38 false; OConn 1 false v38 false;
-   OSend 0 [2%N] false].
-Lemma complete_interleaved_legacy_refuted :
-  map c_st (p_conns (run cfg_legacy proc_init f1a_refused_trace)) = [StClosed; StSec] /\
-  map c_st (p_conns (run cfg_fixed proc_init f1a_refused_trace)) = [StAuth; StSec].
-Proof. vm_compute. split; reflexivity. Qed.
-
-Lemma des_known_answers :
-  des_encrypt 0x133457799BBCDFF1 0x0123456789ABCDEF = Some 0x85E813540F0AB405%N /\
-  des_encrypt 0x0101010101010101 0x8000000000000000 = Some 0x95F8A5E5DD31D900%N /\
-  des_encrypt 0x8001010101010101 0 = Some 0x95A8D72813DAA94D%N /\
-  des_encrypt 0x7CA110454A1A6E57 0x01A1D6D039776742 = Some 0x690F5B0D9A26939B%N /\
-  des_encrypt 0x0131D9619DC1376E 0x5CD54CA83DEF57DA = Some 0x7A389D10354BD271%N /\
-  des_decrypt 0x133457799BBCDFF1 0x85E813540F0AB405 = Some 0x0123456789ABCDEF%N.
-Proof. vm_compute. repeat split. Qed.
-
-(* the hypotheses of the C05_versions_* theorems are satisfiable, and the sscanf mirror on a few
-   lines: canonical, odd but accepted by sscanf (white space, signs count in the width, negative
-   minor), and refused *)
-Definition bytes_of_string (l : list nat) : list N := map N.of_nat l.
-Example versions_nonvacuous :
-  parse_version v33 = Some (3, 3)%Z /\ parse_version v38 = Some (3, 8)%Z /\
-  (* "RFB   3.  8\n" *) parse_version (bytes_of_string [82;70;66;32;32;32;51;46;32;32;56;10]) = Some (3, 8)%Z /\
-  (* "RFB +03.+08\n" *) parse_version (bytes_of_string [82;70;66;32;43;48;51;46;43;48;56;10]) = Some (3, 8)%Z /\
-  (* "RFB 003.-01\n" *) parse_version (bytes_of_string [82;70;66;32;48;48;51;46;45;48;49;10]) = Some (3, -1)%Z /\
-  (* "RFB 003.889\n" *) parse_version (bytes_of_string [82;70;66;32;48;48;51;46;56;56;57;10]) = Some (3, 889)%Z /\
-  (* "RFB 003x008\n" *) parse_version (bytes_of_string [82;70;66;32;48;48;51;120;48;48;56;10]) = None /\
-  (* "RFB 003.\n\n\n\n" *) parse_version (bytes_of_string [82;70;66;32;48;48;51;46;10;10;10;10]) = None /\
-  (* "RFB 003.+\n\n\n" *) parse_version (bytes_of_string [82;70;66;32;48;48;51;46;43;10;10;10]) = None.
-Proof. vm_compute. repeat split. Qed.
-
-Example versions_failure_nonvacuous :
-  let c := mkConn 0 false StAuth 8 demo_chal demo_chal None false [] [] in
-  c_st c = StAuth /\ length (c_chal c) = 16%nat /\
-  (forall pw, In pw (screen_passwords demo_screen) -> vnc_encrypt pw (c_chal c) <> Some demo_chal).
-Proof.
-  cbv zeta. split; [reflexivity|]. split; [reflexivity|].
-  intros pw [<-|[]]. vm_compute. discriminate.
+  intros cf s e c resp e' c' H. unfold on_response in H.
+  destruct (password_check cf s (set_pws (set_resp c resp) (screen_passwords s)) resp) as [b c1] eqn:E.
+  destruct (password_check_keeps _ _ _ _ _ _ E) as [A B]. cbn in A, B.
+  destruct b; injection H as <- <-; [cbn; auto|].
+  destruct (7 <? c_minor c)%Z; cbn; auto.
 Qed.
